@@ -435,7 +435,36 @@ def rule_R9(src, ed, lo, hi, fname):
             ed.replace(toks[i].pos, toks[i + 2].end, new, rule="R9 %s: f64::%s" % (fname, toks[i + 2].text))
 
 
-RULES = {"R9": rule_R9, "R1": rule_R1, "R3": rule_R3, "R7": rule_R7, "R8": rule_R8, "R10": rule_R10}
+def rule_R2(src, ed, lo, hi, fname):
+    """closure whose single parameter is a tuple pattern: `|(a, b)| BODY` -> `|__pK| { let (a, b) = __pK; BODY }`
+    (Rust's own desugaring of pattern parameters)."""
+    toks = src.toks
+    n = 0
+    i = lo
+    while i < hi:
+        t = toks[i]
+        if (not _skipped(i)) and t.kind == "punct" and t.text == "|" and toks[i - 1].text in ("(", ",", "=", "move") \
+                and toks[i + 1].text == "(":
+            c = src.pairs[i + 1]
+            if toks[c + 1].text == "|":
+                pat = src.text[toks[i + 1].pos:toks[c].end]
+                body_s = c + 2
+                name = "__p%d" % n
+                n += 1
+                if toks[body_s].text == "{":
+                    ed.replace(toks[i + 1].pos, toks[c].end, name, rule="R2 %s: closure parameter pattern `%s`" % (fname, pat))
+                    ed.insert(toks[body_s].end, " let %s = %s; " % (pat, name), order=4)
+                else:
+                    e = _stmt_end(src, body_s, hi)
+                    ed.replace(toks[i + 1].pos, toks[c].end, name, rule="R2 %s: closure parameter pattern `%s`" % (fname, pat))
+                    ed.insert(toks[body_s].pos, "{ let %s = %s; " % (pat, name), order=-4)
+                    ed.insert(toks[e - 1].end, " }", order=4)
+                i = c + 1
+                continue
+        i += 1
+
+
+RULES = {"R2": rule_R2, "R9": rule_R9, "R1": rule_R1, "R3": rule_R3, "R7": rule_R7, "R8": rule_R8, "R10": rule_R10}
 SKIP = []  # token ranges (s, e) in which rules must not fire (abstracted statements)
 
 
@@ -537,7 +566,7 @@ def extract_fn(src, loc, spec, ed):
     # slice tables (R6)
     abstracted = []
     del SKIP[:]
-    if spec.get("table"):
+    if "table" in spec:
         apply_slice(src, ed, brace, close, spec["table"], name, spec.get("forbidden", ()))
         loops_all = find_loops(src, brace + 1, close)
         for k, tbl in spec.get("loop_tables", {}).items():
@@ -711,7 +740,7 @@ def extract_block_as_fn(src, loc, spec, ed):
     contract = spec.get("contract", "").strip()
     ed.insert(toks[b_open].pos, header + ("\n    " + contract.replace("\n", "\n    ") + "\n" if contract else "\n"), order=-5)
     del SKIP[:]
-    if spec.get("table"):
+    if "table" in spec:
         apply_slice(src, ed, b_open, b_close, spec["table"], name, spec.get("forbidden", ()))
         for k, tbl in spec.get("loop_tables", {}).items():
             if k >= len(depth_loops):
@@ -828,9 +857,11 @@ def apply_slice(src, ed, open_idx, close_idx, table, what, forbidden=()):
         i, row = hits[0]
         fired.add(i)
         kind, repl = row[1]
-        assert kind == "abstract"
+        assert kind in ("abstract", "abstract_break")
         for k in range(s, e):
             t = toks[k]
+            if kind == "abstract_break" and t.kind == "ident" and t.text == "break" and "break" in repl:
+                continue
             if t.kind == "ident" and t.text in ("break", "continue", "return"):
                 raise Undecided("slice %s: abstract statement `%s...` contains `%s`" % (what, text[:40], t.text))
             if t.kind == "punct" and t.text == "?":
